@@ -83,9 +83,13 @@ def work(ctx, task):
         return {'harness_error': 'scenario %s: default schedule not reproducible' % task['scenario'], 'task': task}
     completed = None
     capped = False
-    for bound in range(0, b + 1):
-        ex = sched.Explorer(lambda p: R.run_concurrent(sc, p), bound, deadline=deadline)
+    passes = [(bound, False) for bound in range(0, b + 1)] + [(1, True)]     # last: line-granularity audit
+    line_execs = 0
+    for bound, line in passes:
+        ex = sched.Explorer(lambda p: R.run_concurrent(sc, p, line=line), bound, deadline=deadline)
         for s, o in ex:
+            if line:
+                line_execs += 1
             counters['executions'] += 1
             js = json.dumps(o, sort_keys=True)
             outcomes.add(js)
@@ -99,16 +103,23 @@ def work(ctx, task):
                                        'facts': {'scenario': task['scenario'], 'differs_in': diff[:3]},
                                        'detail': {'preemptions': s.preemptions(), 'got': {k: o.get(k) for k in diff[:3]},
                                                   'want': {k: json.loads(want).get(k) for k in diff[:3]}},
-                                       'history': {'scenario': sc, 'choices': list(s.choices), 'name': task['scenario']}})
-        counters['points_max'] = max(counters['points_max'], ex.max_points)
+                                       'history': {'scenario': sc, 'choices': list(s.choices), 'name': task['scenario'],
+                                                   'line': line}})
+        if line:
+            counters['line_points_max'] = ex.max_points
+        else:
+            counters['points_max'] = max(counters['points_max'], ex.max_points)
         if not ex.complete:
             capped = True
             break
-        completed = bound
+        if not line:
+            completed = bound
     counters['bound_completed_min'] = completed if completed is not None else -1
     samples.append({'scenario': task['scenario'], 'spec': sc, 'bound_completed': completed, 'executions': counters['executions'],
-                    'schedule_points': counters['points_max'], 'distinct_outcomes': len(outcomes)})
-    return {'counters': {'executions': counters['executions'], 'scenarios': 1,
+                    'schedule_points': counters['points_max'], 'distinct_outcomes': len(outcomes),
+                    'line_granularity_audit': {'bound': 1, 'executions': line_execs,
+                                               'schedule_points': counters.get('line_points_max')}})
+    return {'counters': {'executions': counters['executions'], 'scenarios': 1, 'line_audit_executions': line_execs,
                          'b%s' % completed: 1}, 'violations': violations,
             'outcomes': {task['scenario'] + x for x in outcomes}, 'samples': samples, 'states': set(), 'capped': capped,
             }
@@ -122,13 +133,16 @@ def coverage(res, tier):
         'traces_validated_against_impl': c.get('executions', 0),
         'scenarios': c.get('scenarios', 0),
         'preemption_bound_requested': bounds(tier)['bound'],
-        'scenarios_completed_at_bound': {k: v for k, v in c.items() if k.startswith('b')},
+        'scenarios_completed_at_bound': {k: v for k, v in c.items() if k.startswith('b') and k[1:].lstrip('-').isdigit()},
+        'line_granularity_audit_executions': c.get('line_audit_executions', 0),
         'distinct_outcomes_total': len(res.outcomes),
         'exhaustive': not res.capped,
         'rule': 'states = schedules executed (each a complete run of the real library under the cooperative '
                 'scheduler); every schedule with <= bound preemptions (iterated 0..bound) of every scenario; '
                 'scheduling points at every cooperative-lock acquire, every wrapped os.* / open call, every '
-                'read/write of the unsynchronised flags, thread start/join/exit. The outcome (per-operation results, '
+                'read/write of the unsynchronised flags, thread start/join/exit; plus a granularity audit: the same '
+                'scenarios with EVERY source line of file_builder/*.py as a scheduling point (sys.settrace) at '
+                'preemption bound 1. The outcome (per-operation results, '
                 'tree, thread exceptions, unchanged sequential rebuild log and results, tree after clean, temp dir) '
                 'must equal the outcome of the sequential execution, for which all orders were checked to agree.',
     }
@@ -146,7 +160,7 @@ def replay(v):
     sched.install(ctx.fb)
     R = thr.Runner(ctx)
     h = v['history']
-    s, o = R.run_concurrent(h['scenario'], h['choices'])
+    s, o = R.run_concurrent(h['scenario'], h['choices'], line=bool(h.get('line')))
     seq = R.run_sequential(h['scenario'], next(iter(thr.orders(h['scenario']))))
     print('scenario', h.get('name'), 'choices with non-default decisions at', [i for i, c in enumerate(h['choices']) if c])
     for k in seq:
